@@ -8,6 +8,7 @@ inductive St where
   | ipool (p : IPool)
   | sop (st : Nat) (p : SOPx) (zt : List (Nat × Nat × Nat))  -- sizeof(storage_type), pool, zone table
   | mpool (m : Links) (s : MState) (zt : List (Nat × Nat × Nat))  -- several zones: (base, cells, elemsz)
+  | tri (st : Nat) (p : Pool) (ip : IPool) (sp : SOPx) (slots : List (Nat × Option Nat × Option Nat × Option Nat))  -- the three twins on one history
   | heap (cfg : Cfg) (h : Heap) (ph : PHeap) (slots : List (Nat × Nat))   -- slot ↦ payload offset; list model and `nx`-pointer model side by side
 
 def optS : Option Nat → String
@@ -71,11 +72,52 @@ def ptrAgree (h : Heap) (ph : PHeap) (ret retP : Option Nat) : String :=
   if ph.brk = h.brk ∧ walkFl ph (ph.brk + 1) = h.flp ∧ h.live.all (fun c => ph.szf c.1 == c.2) ∧ ret = retP
   then "" else " MISMATCH-PTR"
 
+/-- the address the driver assumes for `__malloc_heap_start`.  The harness checks that the real arena
+lies in `[2³², 2⁴⁷)` and generates only requests whose verdict is the same for every base in that range. -/
+def BASE : Nat := 2 ^ 46
+
+/-- the history the harness runs from a constructor with `init_priority(101)` (before `main`, before the
+dynamic initialisers of the library): malloc(10), realloc(p, 100), malloc(0), free, free, free -/
+def earlyLine : String :=
+  let cfg : Cfg := ⟨64, 0⟩
+  let r1 := mallocA BASE cfg Heap.init 10
+  match reallocA BASE cfg r1.h r1.ret 100 with
+  | none => "fault"
+  | some r2 =>
+    let r3 := mallocA BASE cfg r2.h 0
+    let brk3 := r3.h.brk
+    match r3.ret, r2.ret, r1.ret with
+    | some c, some b, some a =>
+      match free r3.h b with
+      | none => "fault"
+      | some r4 =>
+        match free r4.h c with
+        | none => "fault"
+        | some r5 => s!"early a={a} b={b} c={c} brk={brk3} end={r5.h.brk} fl={r5.h.flp.length}"
+    | _, _, _ => "fault"
+
+/-- (sizeof T, alignof T, Capacity) of the harness' static_object_pool instantiations, by index -/
+def sopKinds : List (Nat × Nat × Nat) :=
+  [(1, 1, 1), (1, 1, 5), (4, 4, 2), (8, 8, 7), (12, 4, 3), (12, 4, 33), (24, 8, 1), (24, 8, 6), (40, 8, 9),
+   (32, 32, 4), (48, 16, 5), (64, 8, 33), (2, 2, 16), (16, 16, 8), (96, 32, 3), (7, 1, 10)]
+
+def nn : Option Nat → String
+  | none => "null"
+  | some _ => "cell"
+
+def triLine (r1 r2 r3 : String) (p : Pool) (ip : IPool) (sp : SOPx) : String :=
+  s!"{r1} {p.avail} | {r2} {ip.room} {ip.avail} | {r3} {sp.sop.avail} {sp.sop.objs.length} {sp.ctor.length} {sp.dtor.length}{if sp.sop.fault then " FAULT" else ""}"
+
 def stepLine (st : St) (line : String) : St × String :=
   let bad := (st, "bad-op")
   let st' := st
   match words line with
   | ["consts"] => (st, "W=64 szt=8 fl=16 sl=8")
+  -- widths and alignments the model embeds: `int _count` (room(): n < 2³¹), pointers / `size_t` 64 bits (SIZE_MAX),
+  -- header = sizeof(size_t), minimum chunk = sizeof(struct __freelist) - sizeof(size_t), payload alignment 8,
+  -- alignof(max_align_t) of the host (16: NOT provided, finding C10-heap-align-max-align-t)
+  | ["consts2"] => (st, s!"int=4 ptr=8 sizemax={SIZE_MAX} hdr=8 minchunk={minLen 0} align=8 maxalign=16 nx_off=8")
+  | ["early"] => (st, earlyLine)
   | ["reset", "pool", e, n] =>
     match e.toNat?, n.toNat? with
     | some e, some n =>
@@ -106,6 +148,26 @@ def stepLine (st : St) (line : String) : St × String :=
     | some e, some size =>
       (.idle, if engageRefused size e then "assert" else s!"engaged {(Pool.init.engage size e).avail}")
     | _, _ => bad
+  | ["reset", "tri", idx] =>
+    match idx.toNat? with
+    | some idx =>
+      match sopKinds[idx]? with
+      | some (sz, al, cap) =>
+        let e := storageSize sz al
+        let p := Pool.init.engage (cap * e) e
+        let ip := IPool.init (cap * e) e
+        let sp := SOPx.init sz al cap
+        (.tri e p ip sp [], s!"{e} {cap} | {p.avail} | {ip.cells} {ip.room} {ip.avail} | {sp.sop.avail}")
+      | none => bad
+    | none => bad
+  | ["reset", "crit", which] =>
+    -- a request at critical-context level 1 on a heap with one live block at payload offset 8
+    let cfg : Cfg := ⟨64, 0⟩
+    let h1 := (mallocA BASE cfg Heap.init 8).h
+    let op : Op := if which = "m" then .malloc 8 else if which = "f" then .free (some 8) else .realloc (some 8) 100
+    (.idle, match stepCtx 1 BASE cfg h1 op with
+      | none => "abort"
+      | some _ => "returned")
   | ["reset", "mpool"] =>
     (.mpool (slistInit (fun _ => 0) 0) MState.init [], s!"ok {availBoth Pool.init (slistInit (fun _ => 0) 0) 0}")
   | "reset" :: "heap" :: l :: _ =>
@@ -148,6 +210,13 @@ def stepLine (st : St) (line : String) : St × String :=
       | some i => (st, if p.cellIsAllocated i then "1" else "0")
       | none => bad
     | .ipool p, ["sz"] => (st, s!"{p.cells} {p.elemsz}")
+    | .ipool _, ["ri", e, n] =>
+      -- `init(zone, size, elsize)` again on the same object: every member is assigned, `pool_init` empties the list
+      match e.toNat?, n.toNat? with
+      | some e, some n =>
+        let p := IPool.init (n * e) e
+        (.ipool p, s!"{p.cells} {p.room} {p.avail}")
+      | _, _ => bad
     | .ipool p, ["it"] =>
       (st, "it:" ++ String.join (p.iterAll.map fun i => s!" {i}"))
     | .sop st p zt, ["c"] =>
@@ -179,6 +248,37 @@ def stepLine (st : St) (line : String) : St × String :=
         match sxstep st p (.engage b n) with
         | some (p', _) => (.sop st p' (zt ++ [(b, n, st)]), s!"{p'.sop.avail}")
         | none => (st', "fault")
+      | none => bad
+    | .tri e p ip sp slots, ["a", k] =>
+      match k.toNat? with
+      | some k =>
+        let (r1, p') := p.alloc
+        let (r2, ip') := ip.get
+        match sxstep e sp .create with
+        | some (sp', r3) =>
+          let slots' := (k, r1, r2, r3) :: slots.filter (·.1 ≠ k)
+          (.tri e p' ip' sp' slots', triLine (nn r1) (nn r2) (nn r3) p' ip' sp')
+        | none => (st', "fault")
+      | none => bad
+    | .tri e p ip sp slots, ["f", k] =>
+      match k.toNat? with
+      | some k =>
+        let (c1, c2, c3) := match slots.find? (·.1 = k) with
+          | some (_, a, b, c) => (a, b, c)
+          | none => (none, none, none)
+        let slots' := slots.filter (·.1 ≠ k)
+        let p' := match c1 with
+          | some c => (p.release c).1
+          | none => p
+        match ip.put c2 with
+        | none => (st', "abort")
+        | some (ip', _) =>
+          match c3 with
+          | none => (.tri e p' ip' sp slots', triLine "-" "-" "-" p' ip' sp)
+          | some c =>
+            match sxstep e sp (.destroy c) with
+            | some (sp', _) => (.tri e p' ip' sp' slots', triLine "-" "-" "-" p' ip' sp')
+            | none => (st', "fault")
       | none => bad
     | .mpool m s zt, ["z", n, e] =>
       match n.toNat?, e.toNat? with
@@ -221,9 +321,10 @@ def stepLine (st : St) (line : String) : St × String :=
     | .heap cfg h ph slots, ["m", k, n] =>
       match k.toNat?, n.toNat? with
       | some k, some n =>
-        let r := malloc64 cfg h n
-        -- a request whose rounding wraps is refused before any pointer is touched
-        let rp := if n % cfg.W ≠ 0 ∧ n > SIZE_MAX - (cfg.W - n % cfg.W) then (⟨ph, none⟩ : PRes)
+        let r := mallocA BASE cfg h n
+        -- a request whose rounding wraps, or that would move the break across the top of the address
+        -- space, is refused before any pointer is touched
+        let rp := if (n % cfg.W ≠ 0 ∧ n > SIZE_MAX - (cfg.W - n % cfg.W)) ∨ mallocRefusesA BASE cfg h n then (⟨ph, none⟩ : PRes)
           else mallocP cfg ph n (ph.brk + 1)
         let slots' := slotSet slots k r.ret
         (.heap cfg r.h rp.h slots', heapLine (optS r.ret) r.h slots' ++ ptrAgree r.h rp.h r.ret rp.ret)
@@ -244,10 +345,14 @@ def stepLine (st : St) (line : String) : St × String :=
     | .heap cfg h ph slots, ["r", k, n] =>
       match k.toNat?, n.toNat? with
       | some k, some n =>
-        match realloc64 cfg h (slotGet slots k) n with
+        match reallocA BASE cfg h (slotGet slots k) n with
         | none => (st, "fault")
         | some r =>
-          let rp := if n % cfg.W ≠ 0 ∧ n > SIZE_MAX - (cfg.W - n % cfg.W) then (⟨ph, none⟩ : PRes)
+          let len := minLen (roundLen cfg.W n)
+          let refused : Bool := match slotGet slots k with
+            | none => mallocRefusesA BASE cfg h len
+            | some p => reallocWrapTest BASE p len || (reachesMove cfg h p len && mallocRefusesA BASE cfg h len)
+          let rp := if (n % cfg.W ≠ 0 ∧ n > SIZE_MAX - (cfg.W - n % cfg.W)) ∨ refused then (⟨ph, none⟩ : PRes)
             else reallocP cfg ph (slotGet slots k) n (ph.brk + 1)
           -- a NULL result leaves the old block alive
           let slots' := match r.ret with
